@@ -58,6 +58,9 @@ def real_scheme(L):
 @st.composite
 def shipped_case(draw):
     L = draw(st.sampled_from(shipped.LIBS))
+    if draw(st.integers(0, 11)) == 0:
+        # 30-75 heavy atoms: thousands of raw embeddings per pattern (the matcher's cap on embeddings is 10000)
+        return dict(kind='shipped', lib=L, smiles=draw(molgen.large(None if L in ('BensonGA', 'PPY') else ('Ru' if L == 'XieGA2022' else 'Pt'))))
     if draw(st.integers(0, 7)) == 0:
         return dict(kind='shipped', lib=L, smiles=draw(molgen.remapped(None if L in ('BensonGA', 'PPY') else ('Ru' if L == 'XieGA2022' else 'Pt'))))
     smi = draw(molgen.mixed(WEIGHTS[L], metal='Ru' if L == 'XieGA2022' else 'Pt', max_heavy=draw(st.sampled_from([6, 9, 12, 18]))))
